@@ -81,7 +81,7 @@ func (w *zzRecWorld) block() {
 		}
 	}
 	w.tag++
-	kind := verifrt.Choice(5, "block-content")
+	kind := verifrt.Choice(7, "block-content")
 	switch kind {
 	case 0, 1: // one receipt (external / internal)
 		tx := zzBareTx(w.tag)
@@ -120,6 +120,26 @@ func (w *zzRecWorld) block() {
 		}
 		src.spent = true
 		txs = append(txs, tx)
+	case 5: // ONE transaction paying two wallet addresses (external and internal)
+		tx := zzBareTx(w.tag)
+		pay(waddrmgr.ExternalBranch, tx, 100000+int64(w.tag)*1000)
+		pay(waddrmgr.InternalBranch, tx, 50000+int64(w.tag)*1000)
+		txs = append(txs, tx)
+		verifrt.Reach("two-wallet-outputs-in-one-transaction")
+	case 6: // a receipt on an index at or BELOW the highest one paid so far
+		// (address reuse, or a gap index that was skipped earlier)
+		if w.highest[0] < 0 {
+			verifrt.Assume(false)
+		}
+		index := uint32(verifrt.Choice(int(w.highest[0])+1, "low-index"))
+		tx := zzBareTx(w.tag)
+		script, err := txscript.PayToAddrScript(w.addrAt(waddrmgr.ExternalBranch, index))
+		zzW(err)
+		amount := 70000 + int64(w.tag)*1000
+		tx.AddTxOut(wire.NewTxOut(amount, script))
+		w.pays = append(w.pays, &zzPay{branch: waddrmgr.ExternalBranch, index: index, amount: amount, tx: tx, out: 0})
+		txs = append(txs, tx)
+		verifrt.Reach("payment-at-or-below-the-highest-index")
 	case 4: // a receipt and, later in the SAME block, a spend of it with change
 		tx := zzBareTx(w.tag)
 		pay(waddrmgr.ExternalBranch, tx, 100000+int64(w.tag)*1000)
